@@ -22,10 +22,12 @@ BUDGET = {'quick': 50, 'thorough': 500}
 EXHAUSTIVE = {'quick': True, 'thorough': True}
 EXHAUSTIVE_NOTE = {'quick': 'all 271 452 strings of length <=5 over the 12-symbol alphabet',
                    'thorough': 'all 3 257 436 strings of length <=6 over the 12-symbol alphabet'}
-REQUIRED = {'quick': {'exhaustive_strings': 271452, 'accepted': 3000, 'rejected': 200000, 'mutations': 15000,
+REQUIRED = {'quick': {'exhaustive_strings': 271452, 'accepted': 3000, 'rejected': 160000, 'mutations': 15000,
                       'print_parse_fixpoints': 3000},
-            'thorough': {'exhaustive_strings': 3257436, 'accepted': 30000, 'rejected': 2500000,
-                         'mutations': 300000, 'print_parse_fixpoints': 30000}}
+            'thorough': {'exhaustive_strings': 3257436, 'accepted': 30000, 'rejected': 1900000, 'mutations': 300000,
+                      'print_parse_fixpoints': 30000}}
+
+
 MONITORS = ('boundary', 'telemetry')
 ALPHABET = '@[]:/.>-01A '
 WS = ' \t\n\r\x0b\x0c'
